@@ -30,6 +30,7 @@ def init():
             if (256 - code[-1]) != len(code):
                 continue
             FAMILY[name] = (list(code), off, loop_time, mask, BYTE)
+    init_profiles()
 
 def loader_bytes(base, name, dec_a_jp=False):
     """-> (code bytes, offset of LD-BYTES entry) for a loader at address `base`."""
@@ -220,3 +221,182 @@ def shrink_candidates(scn):
             c = cp(); c['blocks'][i]['len'] = max(1, b['len'] // 2); yield c
     if scn.get('dec_a_jp'):
         c = cp(); c['dec_a_jp'] = False; yield c
+
+# ---------------------------------------------------------------------------
+# (The pulse tape is always TZX: PZX blocks carry an initial pulse level, and a level mismatch is played as a
+# zero-length pulse.  A real loader cannot load a block with such a pulse between sync and data, so tapes with
+# them are outside "any tape that loads"; the accelerators treat the zero-length pulse as an edge, the literal
+# sampling loop does not see it.)
+# Pulse profiler: reaches every accelerator shape (any counter/EAR register, decrementing counters,
+# IN A,(C), polarity-sensitive pairs).  The program calls the sampling loop - the accelerator's own code
+# signature - once per tape edge and stores the counter register; accelerated and literal executions must
+# leave identical buffers, registers, R and T.
+
+PROFILES = {}
+
+def init_profiles():
+    from skoolkit.loadsample import ACCELERATORS, BYTE
+    PROFILES.clear()
+    pairs = {}
+    for name, (n, code, off, counter, inc, loop_time, loop_r, ear, mask, pol) in ACCELERATORS.items():
+        if ear == -1 and name[-2:] in ('-0', '-1'):
+            pairs.setdefault(name[:-2], {})[name[-1]] = name
+        else:
+            PROFILES[name] = [name]
+    for fam, d in pairs.items():
+        if '0' in d and '1' in d:
+            PROFILES[fam + '-*'] = [d['0'], d['1']]
+
+def _sample_block(at, name, ret_pad):
+    """Accelerator code at address `at`, wildcards filled, completed and followed by RET padding."""
+    from skoolkit.loadsample import ACCELERATORS, BYTE
+    n, code, off, counter, inc, loop_time, loop_r, ear, mask, pol = ACCELERATORS[name]
+    filled = []
+    i = 0
+    while i < len(code):
+        b = code[i]
+        if b is BYTE:
+            j = i
+            while j < len(code) and code[j] is BYTE:
+                j += 1
+            k = j - i
+            prev = filled[-1] if filled else None
+            if prev == 0x3E and k == 1:
+                filled.append(0x7F)
+            elif prev in (0xCA, 0xC2, 0xD2, 0xDA, 0xC3) and k == 2:
+                filled += [ret_pad & 0xFF, ret_pad >> 8]
+            else:
+                filled += ([0xAF, 0xC9] + [0x00] * k)[:k]
+            i = j
+        else:
+            filled.append(b)
+            i += 1
+    if filled[-1] in (0xCA, 0xC2, 0xF2, 0xFA) and filled[-2] not in (0x28, 0x20):   # JP cc,loop start (address not part of the signature)
+        filled += [at & 0xFF, at >> 8]
+    out = bytes(filled) + bytes((0x00, 0xC9))             # (software-projects exits one byte past its end)
+    return out + bytes((0xC9,)) * (0x60 - len(out))
+
+def gen_profiler(rng, tier, index):
+    names = sorted(PROFILES)
+    fam = names[(index // 3) % len(names)] if rng.random() < 0.85 else rng.choice(names)
+    from skoolkit.loadsample import ACCELERATORS
+    acc = ACCELERATORS[PROFILES[fam][0]]
+    loop_time = acc[5]
+    inc = acc[4]
+    nsamples = rng.choice((4, 8, 16, 30)) if tier == 'quick' else rng.choice((8, 30, 60, 120))
+    pulses = []
+    for _ in range(rng.randrange(2, 6)):
+        kind = rng.random()
+        if kind < 0.6:
+            pulses.append(['tone', int(rng.choice((600, 855, 1100, 1710, 2168, 2500)) * rng.uniform(0.9, 1.1)), rng.randrange(20, 120)])
+        else:
+            pulses.append(['seq', [int(rng.choice((300, 667, 735, 855, 1710, 2168, 4000, 9000 if rng.random() < 0.3 else 1500)) * rng.uniform(0.9, 1.1)) for _ in range(rng.randrange(2, 12))]])
+    scn = {
+        'source': 'profiler', 'family': fam, 'names': PROFILES[fam], 'lbase': rng.choice((0x8000, 0x9000, 0xC000, 0xE000, rng.randrange(0x8000, 0xF000) & 0xFFF0)),
+        'nsamples': nsamples, 'init': rng.randrange(1, 0x90) if inc else rng.randrange(0x70, 0x100), 'pulses': pulses, 'pause_ms': rng.choice((1000, 2000)),
+        'tape_fmt': rng.choice(('tap', 'pzx')), 'tape2': 'tzx', 'order_seed': rng.getrandbits(32), 'size': 600, 'machine': '48',
+        'base': {'polarity': rng.choice((0, 1)), 'first-edge': rng.choice((0, 0, 1000, prng.log_uniform(rng, 1, 300000))), 'finish-tape': 0},
+    }
+    if any(isinstance(b, int) and b == 0xED for b in acc[1]):
+        scn['base']['in-flags'] = 4          # IN A,(C) forms are routed to the tape only with in-flags bit 2
+    from . import p13
+    scn['variants'] = p13.gen_variants(rng, 300, tier, names=tuple(PROFILES[fam]))
+    return scn
+
+def _assemble(items, org):
+    """items: bytes | ('label', name) | ('jr', opcode, label) | ('jp', opcode, label)"""
+    for _pass in range(2):
+        out = bytearray()
+        labels = {} if _pass == 0 else labels
+        for it in items:
+            if isinstance(it, (bytes, bytearray)):
+                out += it
+            elif it[0] == 'label':
+                labels[it[1]] = org + len(out)
+            elif it[0] == 'jr':
+                tgt = labels.get(it[2], org)
+                d = tgt - (org + len(out) + 2)
+                if _pass == 1 and not -128 <= d <= 127:
+                    raise tapeload.ToolError('relative jump out of range in generated profiler')
+                out += bytes((it[1], d & 0xFF))
+            elif it[0] == 'jp':
+                tgt = labels.get(it[2], org)
+                out += bytes((it[1],)) + _word(tgt)
+    return bytes(out), labels
+
+def build_profiler(scn, wd):
+    from skoolkit.loadsample import ACCELERATORS
+    base = scn['lbase']
+    names = scn['names']
+    blocks_at = [base + 0x100, base + 0x180]
+    samples = [_sample_block(blocks_at[i], nm, blocks_at[i] + 0x58) for i, nm in enumerate(names)]
+    n, code, off, counter, inc, loop_time, loop_r, ear, mask, pol = ACCELERATORS[names[0]]
+    cr = counter - 2                                   # B=0 C=1 D=2 E=3 H=4 L=5
+    buf = base + 0x200
+    cnt = base + 0x1F0
+    tocnt = base + 0x1F2
+    items = [bytes((0xF3, 0xDD, 0x21)) + _word(buf), bytes((0x3E, scn['nsamples'], 0x32)) + _word(cnt), bytes((0x3E, 3000 & 0xFF, 0x32)) + _word(tocnt) + bytes((0x3E, 3000 >> 8, 0x32)) + _word(tocnt + 1)]
+    if 0xED in code and code[code.index(0xED) + 1] == 0x78 and counter != 3 and ear != 3:
+        items.append(bytes((0x0E, 0xFE)))              # LD C,0xFE for IN A,(C)
+    flip = b''
+    if ear >= 0:
+        er = ear - 2
+        items.append(bytes((0x3E, 0x7F, 0xDB, 0xFE)) + (bytes((0x1F,)) if mask == 0x20 else b'') + bytes((0xE6, mask, 0x40 + er * 8 + 7)))
+        flip = bytes((0x78 + er, 0xEE, mask, 0x40 + er * 8 + 7))          # LD A,ear; XOR mask; LD ear,A
+    else:
+        for b in code:
+            if isinstance(b, int) and 0xA0 <= b <= 0xA5 and (b - 0xA0) != cr:
+                items.append(bytes((0x06 + (b - 0xA0) * 8, 0x40)))          # LD r,0x40 : the mask register of AND r
+    order = list(range(len(names)))
+    items.append(('label', 'loop'))
+    for k, i in enumerate(order):
+        items += [('label', 'try%d' % k), bytes((0x06 + cr * 8, scn['init'], 0xCD)) + _word(blocks_at[i]), bytes((0x78 + cr, 0xB7)), ('jr', 0x20, 'got%d' % k),
+                  # time-out (counter ran to zero): not a sample; give up after 3000 of them (the gap before the pulses is real time)
+                  bytes((0x3A,)) + _word(tocnt) + bytes((0xD6, 0x01, 0x32)) + _word(tocnt) + bytes((0x3A,)) + _word(tocnt + 1) + bytes((0xDE, 0x00, 0x32)) + _word(tocnt + 1),
+                  ('jp', 0xDA, 'done'), ('jr', 0x18, 'try%d' % k),
+                  ('label', 'got%d' % k), bytes((0xDD, 0x70 + cr, 0x00, 0xDD, 0x23)) + flip]
+    items += [bytes((0x3A,)) + _word(cnt) + bytes((0x3D, 0x32)) + _word(cnt), ('jp', 0xC2, 'loop'), ('label', 'done'), ('jp', 0xC3, 'done')]
+    prog, labels = _assemble(items, base)
+    done = labels['done']
+    assert len(prog) <= 0x100, len(prog)
+    image = prog + bytes(0x100 - len(prog)) + samples[0] + bytes(0x20) + (samples[1] if len(samples) > 1 else bytes(0x60))
+    image += bytes(0x200 - len(image))
+    image += bytes(len(names) * scn['nsamples'] + 8)
+    if base + len(image) >= 0x10000:
+        raise tapeload.ToolError('layout does not fit')
+    binf = os.path.join(wd, 'prof.bin')
+    with open(binf, 'wb') as f:
+        f.write(image)
+    tape1 = os.path.join(wd, 'prof.' + scn['tape_fmt'])
+    tapeload.run_tool(tapeload.bin2tap, ['--org', str(base), '--start', str(base), '--stack', str(0x7F00), binf, tape1])
+    if scn['tape2'] == 'tzx':
+        out = bytearray(b'ZXTape!\x1a\x01\x14')
+        for pl in scn['pulses']:
+            if pl[0] == 'tone':
+                out += bytes((0x12,)) + _word(pl[1]) + _word(pl[2])
+            else:
+                out += bytes((0x13, len(pl[1]))) + b''.join(_word(x) for x in pl[1])
+        # the tracer only plays pulses that lead up to a data block, so the tape ends with a short pure-data block
+        tail = random.Random(scn['order_seed']).randbytes(24)
+        out += bytes((0x14,)) + _word(855) + _word(1710) + bytes((8,)) + _word(scn['pause_ms']) + bytes((len(tail), 0, 0)) + tail
+        tape2 = os.path.join(wd, 'pulses.tzx')
+    else:
+        out = bytearray(b'PZXT' + _dword(2) + bytes((1, 0))) + b'PAUS' + _dword(4) + _dword(300 * 3500)
+        body = bytearray()
+        for pl in scn['pulses']:
+            if pl[0] == 'tone':
+                body += _word(0x8000 | pl[2]) + _word(pl[1])
+            else:
+                for x in pl[1]:
+                    body += _word(x)
+        tail = random.Random(scn['order_seed']).randbytes(24)
+        dbody = _dword(len(tail) * 8) + _word(945) + bytes((2, 2)) + _word(855) * 2 + _word(1710) * 2 + tail
+        out += b'PULS' + _dword(len(body)) + body + b'DATA' + _dword(len(dbody)) + dbody + b'PAUS' + _dword(4) + _dword(scn['pause_ms'] * 3500)
+        tape2 = os.path.join(wd, 'pulses.pzx')
+    with open(tape2, 'wb') as f:
+        f.write(bytes(out))
+    scn['extra_args'] = [tape1]
+    n_buf = len(names) * scn['nsamples']
+    # the buffer holds timing measurements, not bytes loaded from data blocks: it is compared in the strict group
+    # (whole RAM) but is no 'loaded data' for the weak group (fast load / contention may shift the measurements)
+    return tape2, done, '48', [], set()
